@@ -193,6 +193,10 @@ func (b *block) len() int {
 func (b *block) setBase(n int64) {
 	b.base = n
 	b.offset = Offset{File: n}
+	// The block is about to be filled from the member at n. Until
+	// readFrom succeeds it does not hold that member's data, so it
+	// must not be cached or reused by Seek under the new base.
+	b.buf = nil
 }
 
 func (b *block) NextBase() int64 {
